@@ -126,16 +126,26 @@ class FakeZip:
         for i, x in enumerate(self.names):
             if x is n or (isinstance(x, str) and isinstance(n, str) and x == n):
                 return self.CONTENT[i % 3]
+            if not (isinstance(x, str) and isinstance(n, str)) and len(x) == len(n) and x == n:      # symbolic comparison (forks)
+                return self.CONTENT[i % 3]
         raise KeyError(n)
 
 
 def make_apk(apkmod, names):
-    a = apkmod.APK.__new__(apkmod.APK)
+    # the object is built without __init__ (which needs a real archive); private attributes that __init__ would have
+    # set (caches and the like) read as None
+    class _APK(apkmod.APK):
+        def __getattr__(self, k):
+            if k.startswith('_') and not k.startswith('__'):
+                return None
+            raise AttributeError(k)
+    a = _APK.__new__(_APK)
     a.zip = FakeZip(names)
     return a
 
 
 OTHERS = ['classes.dex', 'lib/classes2.dex', 'AndroidManifest.xml']
+ABSENT = ['no/such/entry', '/classes.dex', './AndroidManifest.xml', '../classes.dex']
 
 
 def job(jc, n):
@@ -146,6 +156,7 @@ def job(jc, n):
     chars = [fresh_char('c%d' % i, 18) for i in range(n)]
     name = SStr(chars)
     pre = [c.e <= MAXC for c in chars]
+    pre += [z3.Not(name.eq_term(o)) for o in OTHERS]            # entry names of an archive are distinct
     eng = jc.new_engine(pre=pre)
     label = 'entry name of %d symbolic characters' % n
     want = lang_term(name)
@@ -157,12 +168,20 @@ def job(jc, n):
         datas = list(a.get_all_dex())
         # get_file: present entries (also the empty one) return their content, a missing one raises FileNotPresent
         files = [a.get_file(name), a.get_file('classes.dex'), a.get_file('AndroidManifest.xml')]
-        try:
-            a.get_file('no/such/entry')
-            missing = 'returned'
-        except apkmod.FileNotPresent:
-            missing = 'FileNotPresent'
-        return [x is name for x in names], [x for x in names if x is not name], multi, datas, files, missing
+        missing = []
+        # names that are not in the archive (unless the symbolic entry happens to be that very name), among them names that
+        # only differ from an entry by leading dots / slashes
+        for absent in ABSENT + ['/' + name, './' + name]:
+            try:
+                a.get_file(absent)
+                missing.append(True)
+            except apkmod.FileNotPresent:
+                missing.append(False)
+        # the listing is asked a second time on the same object
+        names2 = list(a.get_dex_names())
+        datas2 = list(a.get_all_dex())
+        same = [x is y for x, y in zip(names, names2)] == [True] * len(names) and len(names) == len(names2) and datas2 == datas
+        return [x is name for x in names], [x for x in names if x is not name], multi, datas, files, missing, same
 
     def ext(m):
         return dict(kind='name', name=name.concrete(m))
@@ -171,15 +190,18 @@ def job(jc, n):
         if kind == 'exc':
             jc.obligation(eng, pc, z3.BoolVal(False), ext, label=label, what='raised %r' % (r,))
             continue
-        flags, rest, multi, datas, files, missing = r
+        flags, rest, multi, datas, files, missing, same = r
         listed = any(flags)
         obs = {'listed iff root-level classes[0-9]*.dex': want == z3.BoolVal(listed),
                'other entries': z3.BoolVal(rest == ['classes.dex']),
                'is_multidex': z3.BoolVal(multi) == want,        # classes.dex is always present -> multidex iff name is a dex
                'get_all_dex reads exactly the listed names': z3.BoolVal(
                    datas == ([FakeZip.CONTENT[0]] if listed else []) + [FakeZip.CONTENT[1]]),
-               'get_file returns the entry content / FileNotPresent': z3.BoolVal(
-                   files == [FakeZip.CONTENT[0], FakeZip.CONTENT[1], FakeZip.CONTENT[0]] and missing == 'FileNotPresent')}
+               'second listing on the same object equals the first': z3.BoolVal(same),
+               'get_file returns the entry content': z3.BoolVal(files == [FakeZip.CONTENT[0], FakeZip.CONTENT[1], FakeZip.CONTENT[0]]),
+               'get_file of an absent name raises FileNotPresent': z3.And(
+                   [z3.Or(name.eq_term(lit), z3.BoolVal(not ret)) for lit, ret in zip(ABSENT, missing)] +
+                   [z3.BoolVal(not ret) for ret in missing[len(ABSENT):]])}
         jc.obligations(eng, pc, obs, ext, label=label, what='%s: violated')
     eng.partition_guard()
     jc.sample(dict(case=label, paths=eng.st.paths))
@@ -271,5 +293,16 @@ def replay(w):
     want = [FakeZip.CONTENT[i % 3] for i in range(len(names))]
     if files != want or datas != [want[names.index(n)] for n in exp]:
         return True, 'entries %r: get_file/get_all_dex returned %r / %r, archive holds %r' % (names, files, datas, want)
+    got2, datas2 = list(a.get_dex_names()), list(a.get_all_dex())
+    if got2 != got or datas2 != datas:
+        return True, 'entries %r: the second listing on the same APK object is %r / %r, the first was %r / %r' % (names, got2, datas2, got, datas)
+    for absent in ABSENT + ['/' + name, './' + name]:
+        if absent in names:
+            continue
+        try:
+            r = a.get_file(absent)
+            return True, 'entries %r: get_file(%r) returned %r, there is no such entry' % (names, absent, r)
+        except apkmod.FileNotPresent:
+            pass
     return got != exp or multi != (len(exp) > 1), 'entries %r: get_dex_names=%r is_multidex=%r, expected %r / %r' % (
         names, got, multi, exp, len(exp) > 1)
